@@ -251,6 +251,7 @@ func suiteMigrate(c *Ctx) error {
 		sep := func(s string) { buf.WriteString(s) }
 		emit("{", "{")
 		first := true
+		afterSigs := false
 		kv := func(k string) {
 			if !first {
 				sep(",")
@@ -259,7 +260,14 @@ func suiteMigrate(c *Ctx) error {
 			sep("\n  ")
 			emit("k:"+hx(k), jstr(k))
 			sep(": ")
-			emit("o", pick(rr, []string{`"1.0"`, `{"a":[1,2,{"b":null}]}`, `12.5`, `[true,false]`}))
+			if afterSigs {
+				// after the array only string values: a cut inside a trailing array/object value is walked
+				// token by token by the outer loop and can end in success (all signatures already
+				// imported) — outside what the token-level model distinguishes
+				emit("o", pick(rr, []string{`"1.0"`, `"2026-01-01T00:00:00Z"`}))
+			} else {
+				emit("o", pick(rr, []string{`"1.0"`, `{"a":[1,2,{"b":null}]}`, `"12.5"`, `[true,false]`}))
+			}
 		}
 		for _, k := range pre {
 			kv(k)
@@ -284,6 +292,7 @@ func suiteMigrate(c *Ctx) error {
 		}
 		sep("\n  ")
 		emit("]", "]")
+		afterSigs = true
 		for _, k := range post {
 			kv(k)
 		}
@@ -336,7 +345,8 @@ func suiteMigrate(c *Ctx) error {
 					lastEnd = sp.to
 				}
 			}
-			if strings.TrimSpace(string(full[lastEnd:cut])) != "" {
+			// (a ':' after a key is consumed by the ignored Decode and does not count; a ',' does)
+			if strings.Trim(string(full[lastEnd:cut]), " \t\r\n:") != "" {
 				part = "1"
 			}
 			tlines = append(tlines, fmt.Sprintf("toks\t%s\t%s", strings.Join(toks, ","), part))
@@ -461,15 +471,36 @@ func straceSaveDatabase(c *Ctx) (string, string, error) {
 	os.WriteFile(target, []byte(`{"version":"old","description":"","signatures":[]}`), 0o644)
 	self, _ := os.Executable()
 	logf := filepath.Join(c.Work, "strace.log")
-	cmd := exec.Command("strace", "-f", "-o", logf, "-e", "trace=openat,open,creat,write,pwrite64,fsync,fdatasync,close,rename,renameat,renameat2,unlink,unlinkat,ftruncate,truncate", self, "savedb", in, target)
+	// -ff: one file per thread (no <unfinished ...>/<... resumed> interleaving); -ttt: absolute
+	// timestamps so the per-thread files can be merged back into one order
+	cmd := exec.Command("strace", "-ff", "-ttt", "-o", logf, "-e", "trace=openat,open,creat,write,pwrite64,fsync,fdatasync,close,rename,renameat,renameat2,unlink,unlinkat,ftruncate,truncate", self, "savedb", in, target)
 	if out, err := cmd.CombinedOutput(); err != nil {
 		return "", "", fmt.Errorf("strace run: %v %s", err, out)
 	}
-	f, err := os.Open(logf)
-	if err != nil {
-		return "", "", err
+	files, _ := filepath.Glob(logf + ".*")
+	type tl struct {
+		ts   string
+		text string
 	}
-	defer f.Close()
+	var merged []tl
+	for _, fn := range files {
+		fb, err := os.ReadFile(fn)
+		if err != nil {
+			continue
+		}
+		for _, ln := range strings.Split(string(fb), "\n") {
+			p := strings.SplitN(strings.TrimSpace(ln), " ", 2)
+			if len(p) == 2 {
+				merged = append(merged, tl{p[0], p[1]})
+			}
+		}
+	}
+	sort.SliceStable(merged, func(i, j int) bool { return merged[i].ts < merged[j].ts })
+	var mergedText bytes.Buffer
+	for _, m := range merged {
+		mergedText.WriteString(m.text + "\n")
+	}
+	f := bytes.NewReader(mergedText.Bytes())
 	fdName := map[string]string{} // pid-agnostic: fd -> path (only for files under dir)
 	var ops, human []string
 	lastWrite := ""
